@@ -150,6 +150,12 @@ def TyDef.isFloatKind (d : TyDef) : Bool :=
   | .basic .f32 | .basic .f64 => true
   | _ => false
 
+/-- `isProtoSlice` in codec.go: the codec, or what it points to, is a ProtoSliceWrapper. -/
+def Ty.isProtoSlice : Ty → Bool
+  | .pslice _ => true
+  | .ptr t => t.isProtoSlice
+  | _ => false
+
 /-- which wrapper a slice of `sub` gets. `notFloat`: the element *type* is not of
 kind float32/float64 — a pointer to a float or a nullable float, whose codec has
 a fixed wire type but whose elements can be absent: rejected. -/
@@ -157,7 +163,11 @@ def sliceWrap (cfg : Cfg) (tag : String) (notFloat : Bool) (sub : Ty) : Res Ty :
   match sub.wt with
   | .varint => .ok (.vslice sub)
   | .w64 | .w32 => if notFloat then .err else .ok (.fslice sub)
-  | .len => if cfg.protoArrays || tag == "proto" then .ok (.pslice sub) else .ok (.lslice sub)
+  | .len =>
+      -- `isProtoSlice(subc)`: the protobuf repeated form has no length of its own, so
+      -- it cannot be an element (directly or behind pointers) of another slice
+      if sub.isProtoSlice then .err
+      else if cfg.protoArrays || tag == "proto" then .ok (.pslice sub) else .ok (.lslice sub)
   | _ => .err
 
 mutual
